@@ -365,6 +365,8 @@ def jsonable(v):
 
 
 def make_case(doc, desc, root):
+    import common
+    common.next_logging()
     os.makedirs(root, exist_ok=True)
     out, info = specsim.run_pipeline(doc, root)
     shutil.rmtree(root, ignore_errors=True)
@@ -489,6 +491,24 @@ CORPUS_MUTATIONS = [
     ("nodes is a word", lambda d: d["study"][0]["run"].__setitem__("nodes", "two")),
     ("priority unknown", lambda d: d["study"][0]["run"].__setitem__("priority", "urgent")),
     ("priority 2.0", lambda d: d["study"][0]["run"].__setitem__("priority", 2.0)),
+    # every finding of the seeded rounds that needed one particular document gets it here
+    ("undefined dependency spelled around a defined name (x__*)",
+     lambda d: d["study"][1]["run"].__setitem__("depends", [d["study"][0]["name"] + "__*"])),
+    ("undefined dependency spelled around a defined name (x_)",
+     lambda d: d["study"][1]["run"].__setitem__("depends", [d["study"][0]["name"] + "_"])),
+    ("undefined dependency spelled around a defined name (_x_*)",
+     lambda d: d["study"][1]["run"].__setitem__("depends", ["_" + d["study"][0]["name"] + "_*"])),
+    ("unknown run key with a quote", lambda d: d["study"][0]["run"].__setitem__("it's", "x")),
+    ("unknown step key that is a quote", lambda d: d["study"][0].__setitem__("'", "x")),
+    ("variable name with a backslash, list value", lambda d: d.__setitem__("env", {"variables": {"a\\d": []}})),
+    ("variable name with a group reference, null value", lambda d: d.__setitem__("env", {"variables": {"x\\1": None}})),
+    ("same name as a path and as a repository", lambda d: d.__setitem__("env", {"dependencies": {
+        "paths": [{"name": "LIB", "path": "/tmp"}],
+        "git": [{"name": "LIB", "path": "/tmp", "url": "https://example.invalid/lib.git"}]}})),
+    ("a date where a command belongs", lambda d: d["study"][0]["run"].__setitem__("cmd", __import__("datetime").date(2024, 1, 1))),
+    ("a date as a parameter value", lambda d: d.__setitem__("global.parameters", {
+        "DAY": {"values": [__import__("datetime").date(2024, 1, 1), __import__("datetime").date(2024, 1, 2)],
+                "label": "DAY.%%"}})),
 ]
 
 
